@@ -69,10 +69,10 @@ impl TableBuilder for TypeDeclaration {
         let range = self.to_range().shift(offset);
         if let Some(name) = self.name.as_mut() {
             if name.value == "main" {
-                name.info.append_error(SplError(
-                    name.to_range(),
-                    BuildErrorMessage::MainIsNotAProcedure.into(),
-                ));
+                // (like all errors concerning a name, it covers the identifier alone,
+                // not the comments in front of it)
+                let error = name.to_error(|_| BuildErrorMessage::MainIsNotAProcedure);
+                name.info.append_error(error);
                 return;
             }
             let documentation = get_documentation(&self.doc);
